@@ -197,7 +197,7 @@ Theorem C08_found_write_failure_refuted :
     map ns_nmid (ns_sq (nsf_s x)) = [1; 2] /\ forallb ns_ncon (ns_sq (nsf_s x)) = true /\
     ns_act (nsf_s x) = 1 /\
     Z.of_nat (length (ns_sq (nsf_s x))) > ns_nstart ns_cfg_found /\
-    nsb_run ns_cfg_found [] t 0 = Some 3.
+    nsb_run ns_cfg_found (nsb_mk true true []) t 0 = Some 3.
 Proof. exact nsf_bound_refuted_found. Qed.
 Print Assumptions C08_found_write_failure_refuted.
 
